@@ -24,7 +24,7 @@ RULE = ("real archives: `small` (3 samples, compressed + stored-raw references, 
         "get_group_statistics, get_reference_segment) x first/last/second-batch/unknown sample, first/last/unknown "
         "contig, compressed-reference / stored-raw-reference / raw / unknown group, existing / out-of-range / unknown "
         "descriptors. ALL sequences of length 3 over the 42-op alphabet and ALL of length 4 over 12 (quick) / 20 "
-        "(thorough) ops on each of the 3 archives (thorough: + length 3 over 26 ops on 17 random archives), random "
+        "(thorough) ops on each of the 3 archives (quick: k2 gets length 3 over 26 ops only; thorough: + length 3 over 26 ops on 17 random archives), random "
         "sequences of length 10-30 over 42 ops, cloned readers in 2-8 threads with yield_point perturbation while "
         "the parent keeps answering. Model side: the extracted ReaderState model on the abstract archive read from "
         "the real one predicts class AND full answer (hash) of both columns. non-trivial = a sequence with >= 2 ops "
@@ -130,8 +130,10 @@ def gen_cases(rng, tier):
     per = 200
     nseq = 0
     for d, p in main:
-        seqs = [" ".join(s) for s in itertools.product(FULL, repeat=3)]
-        seqs += [" ".join(s) for s in itertools.product(A12 if tier == "quick" else A20, repeat=4)]
+        tiny = tier == "quick" and d.endswith("k2")      # k2 has 2 samples, 3 contigs: the 26-op alphabet covers it
+        seqs = [" ".join(s) for s in itertools.product(QA if tiny else FULL, repeat=3)]
+        if not tiny:
+            seqs += [" ".join(s) for s in itertools.product(A12 if tier == "quick" else A20, repeat=4)]
         nseq += len(seqs)
         for ch in _chunks(seqs, per):
             cs.append(f"h {d} {p} " + " / ".join(ch))
@@ -160,6 +162,10 @@ def model_cases(cases, impl_lines):
 
 
 def canon(case, line):
+    if line.startswith("CREATE-"):
+        # the archive could not be created (another property's business): nothing to compare, nothing to judge
+        _STATE.setdefault("create_failed", set()).add(case.split()[1])
+        return "NOTRACE"
     if line.startswith("A "):
         p = line.find(" | ")
         return line[p + 3:] if p >= 0 else line
@@ -181,6 +187,8 @@ def nontrivial(case, impl):
 
 
 def oracle(case, impl):
+    if impl.startswith("CREATE-"):
+        return None
     if not impl.startswith("A "):
         return "implementation failed: " + impl[:200]
     for si, seq in enumerate(_results(impl)):
@@ -293,4 +301,5 @@ def extra_checks(ctx):
 
 def extra_coverage(ctx):
     return {"archives": [os.path.basename(d) + " " + p for d, p in _STATE.get("archives", [])],
-            "op_sequences": _STATE.get("sequences", 0), "cli_runs": _STATE.get("cli_runs", 0)}
+            "op_sequences": _STATE.get("sequences", 0),
+            "archives_not_created": sorted(os.path.basename(x) for x in _STATE.get("create_failed", [])), "cli_runs": _STATE.get("cli_runs", 0)}
